@@ -615,6 +615,29 @@ func (g *Gen) execInstr(in ssa.Instruction) error {
 		if x.Blocking {
 			g.assume(sx("<=", "0", g.vals[x].Tuple[0].T))
 		}
+		// the chosen case is an event contracts can talk about: a receive
+		// ($recv.<field>, only when a value was received, i.e. recvOk) or a send
+		// ($send.<field>, and the sent("<field>") counter)
+		{
+			idx := g.vals[x].Tuple[0].T
+			recvOk := g.vals[x].Tuple[1].T
+			for i, st := range x.States {
+				chosen := eq(idx, intLit(int64(i)))
+				fn := chanFieldName(st.Chan)
+				if st.Dir == types.RecvOnly {
+					name := "$recv"
+					if fn != "" {
+						name = "$recv." + fn
+					}
+					g.noteEvent(name, and(chosen, recvOk))
+				} else {
+					g.checkSendSpecsFor(fn, st.Send, chosen, x.Pos())
+					if fn != "" {
+						g.noteEvent("$send."+fn, chosen)
+					}
+				}
+			}
+		}
 	case *ssa.Send:
 		g.checkSendSpecs(x)
 		g.abstract("Send (channel operations are not modelled)", x.Pos())
@@ -732,15 +755,15 @@ func (g *Gen) execUnOp(x *ssa.UnOp) {
 		// a blocking receive is an event contracts can order calls against:
 		// called("$recv.<field>") for a channel read from a struct field
 		name := "$recv"
-		if ld, ok := x.X.(*ssa.UnOp); ok {
-			if fn, _ := fieldNameOfAddr(ld.X); fn != "" {
-				name = "$recv." + fn
-			}
+		if fn := chanFieldName(x.X); fn != "" {
+			name = "$recv." + fn
 		}
-		if g.selectors[name] {
-			g.cur.ghost["$called:"+name] = "true"
-			g.cur.ghost["$count:"+name] = sx("+", g.ghostTerm(g.cur, "$count:"+name), "1")
+		cond := "true"
+		if x.CommaOk {
+			// v, ok := <-ch: a message was received only if ok
+			cond = g.vals[x].Tuple[1].T
 		}
+		g.noteEvent(name, cond)
 	default:
 		g.fail("unsupported unary op %s", x.Op)
 	}
@@ -1328,14 +1351,18 @@ func (g *Gen) checkStoreSpecs(x *ssa.Store) {
 
 // checkSendSpecs: //verif:send <chanfield> requires <expr> (sentval bound).
 func (g *Gen) checkSendSpecs(x *ssa.Send) {
-	if g.con == nil {
-		return
+	fn := chanFieldName(x.Chan)
+	g.checkSendSpecsFor(fn, x.X, "true", x.Pos())
+	if fn != "" {
+		g.noteEvent("$send."+fn, "true")
 	}
-	fname := ""
-	if ld, ok := x.Chan.(*ssa.UnOp); ok {
-		fname, _ = fieldNameOfAddr(ld.X)
-	}
-	if fname == "" {
+}
+
+// checkSendSpecsFor: //verif:send <field> requires <expr> for a send of val on the
+// channel held in <field>; cond is the condition under which the send happens (a
+// select case).
+func (g *Gen) checkSendSpecsFor(fname string, val ssa.Value, cond string, pos token.Pos) {
+	if g.con == nil || fname == "" {
 		return
 	}
 	for _, sp := range g.con.Sends {
@@ -1347,7 +1374,7 @@ func (g *Gen) checkSendSpecs(x *ssa.Send) {
 		for k, v := range g.env {
 			env[k] = v
 		}
-		env["sentval"] = g.val(x.X)
+		env["sentval"] = g.val(val)
 		sc := g.specCtx(env, g.cur, g.init)
 		t, err := sc.evalBool(sp.Cl.E)
 		if err != nil {
@@ -1357,11 +1384,92 @@ func (g *Gen) checkSendSpecs(x *ssa.Send) {
 		if label == "" {
 			label = sp.Sel
 		}
-		g.oblige("send", label, t, g.pos(x), "send on ."+sp.Sel+" requires "+sp.Cl.Src)
-		if g.selectors["$sent:"+fname] {
-			g.cur.ghost["$sent:"+fname] = sx("+", g.ghostTerm(g.cur, "$sent:"+fname), "1")
+		g.oblige("send", label, imp(cond, t), pos, "send on ."+sp.Sel+" requires "+sp.Cl.Src)
+	}
+	if g.selectors["$sent:"+fname] {
+		inc := "1"
+		if cond != "true" {
+			inc = sx("ite", cond, "1", "0")
+		}
+		g.cur.ghost["$sent:"+fname] = sx("+", g.ghostTerm(g.cur, "$sent:"+fname), inc)
+	}
+}
+
+// chanFieldName: the struct field a channel operand was loaded from (n.in, or an
+// element of a slice field, n.out[0]); "" otherwise.
+func chanFieldName(v ssa.Value) string {
+	ld, ok := v.(*ssa.UnOp)
+	if !ok || ld.Op != token.MUL {
+		return ""
+	}
+	if fn, _ := fieldNameOfAddr(ld.X); fn != "" {
+		return fn
+	}
+	if ia, ok := ld.X.(*ssa.IndexAddr); ok {
+		if ld2, ok := ia.X.(*ssa.UnOp); ok && ld2.Op == token.MUL {
+			if fn, _ := fieldNameOfAddr(ld2.X); fn != "" {
+				return fn
+			}
 		}
 	}
+	return ""
+}
+
+// noteEvent records a non-call event (channel receive / send) in the call-history
+// ghosts, under condition cond.
+func (g *Gen) noteEvent(name, cond string) {
+	if !g.selectors[name] {
+		return
+	}
+	s := g.cur
+	g.ghostSorts["$called:"+name] = "Bool"
+	g.ghostSorts["$ok:"+name] = "Bool"
+	s.ghost["$called:"+name] = or(g.ghostTerm(s, "$called:"+name), cond)
+	s.ghost["$ok:"+name] = or(cond, g.ghostTerm(s, "$ok:"+name))
+	inc := "1"
+	if cond != "true" {
+		inc = sx("ite", cond, "1", "0")
+	}
+	s.ghost["$count:"+name] = sx("+", g.ghostTerm(s, "$count:"+name), inc)
+	for _, sn := range g.sinces {
+		gn := "$since:" + sn[0] + "|" + sn[1]
+		if sn[1] == name {
+			s.ghost[gn] = sx("ite", cond, "0", g.ghostTerm(s, gn))
+		} else if sn[0] == name {
+			s.ghost[gn] = sx("+", g.ghostTerm(s, gn), inc)
+		}
+	}
+}
+
+// instrEvents: the event names an instruction may fire (for loop write sets).
+func instrEvents(in ssa.Instruction) []string {
+	var out []string
+	switch x := in.(type) {
+	case *ssa.UnOp:
+		if x.Op == token.ARROW {
+			out = append(out, "$recv")
+			if fn := chanFieldName(x.X); fn != "" {
+				out = append(out, "$recv."+fn)
+			}
+		}
+	case *ssa.Send:
+		if fn := chanFieldName(x.Chan); fn != "" {
+			out = append(out, "$send."+fn)
+		}
+	case *ssa.Select:
+		for _, st := range x.States {
+			fn := chanFieldName(st.Chan)
+			if st.Dir == types.RecvOnly {
+				out = append(out, "$recv")
+				if fn != "" {
+					out = append(out, "$recv."+fn)
+				}
+			} else if fn != "" {
+				out = append(out, "$send."+fn)
+			}
+		}
+	}
+	return out
 }
 
 // cidrAxiom: for a string constant that parses as a CIDR, the meaning of
